@@ -147,6 +147,13 @@ theorem body_cbt (e : Emu) (n : Int) : evalBody TermBodies.body_cbt [] [n] e = .
 theorem body_tbc (e : Emu) (n : Int) : evalBody TermBodies.body_tbc [] [n] e = .ok (tbc e n) := body_tbc_eq e n
 theorem body_hts (e : Emu) : evalBody TermBodies.body_hts [] [] e = .ok (hts e) := body_hts_eq e
 
+/-- resize(w, h) (term.go): everything but the reflow loop nest is interpreted; see `body_resize_eq`.
+    For every size, including negative ones (`make` panics), except the unreachable `w < 0 ∧ h = 0`. -/
+theorem body_resize (e : Emu) (w h : Int) (h0 : ¬ (w < 0 ∧ h = 0)) :
+    evalBody TermBodies.body_resize [] [w, h] e = resize Fixes.current e w h := body_resize_eq e w h h0
+
+example : ¬ ((80 : Int) < 0 ∧ (24 : Int) = 0) := by decide
+
 /-- print(seq): charset translation, autowrap (wrapped flag + NEL), insert-mode shift, clamped write,
     trailing cells of a wide glyph, cursor advance and pending wrap — for every grapheme, every width,
     every state. -/
@@ -157,6 +164,8 @@ theorem body_print (e : Emu) (g : G) (w : Nat) :
 
 theorem bodies_fully_recognised : (covered.all Body.recognised) = true := by decide
 theorem bodies_wf : (covered.all Body.wf) = true := by decide
+/-- every generated body is covered: each of the 40 translated functions has its `body_<fn>` theorem -/
+theorem all_generated_covered : (TermBodies.bodies.all fun b => covered.contains b) = true := by decide
 /-- every covered body is one of the generated ones -/
 theorem covered_generated : (covered.all fun b => TermBodies.bodies.contains b) = true := by decide
 
